@@ -39,6 +39,9 @@ def r1(ctx):
     from analysis.quant import quant_nf
     from analysis.seq import ITEM as _ITEM
     q = quant_nf(ctx.facts, uw, rv[0][0]) if len(rv) == 1 else None
+    if q is None:
+        from analysis.quant import quant_of_body
+        q = quant_of_body(ctx.facts, uw)
     ok = q is not None and q[0] == 'all' and match(q[1], Call('str::chars', ('arg', 1, ANY))) and \
         match(core(q[2]), Call('char::methods::is_whitespace', _ITEM))
     ctx.require(ok, uw, 'unicode-predicate', 'unicode::is_whitespace(s) = s.chars().all(char::is_whitespace)',
@@ -323,8 +326,9 @@ def charstring_primitive(ctx):
         raise AnchorMissing('calls to UnicodeSegmentation::graphemes in the crate')
     # positions: byte_start_end / char_range_to_byte_range / get / sub agree with the stored cluster lengths (C16 states this as its own rule)
     if ctx.prop != 'C16':
-        from rules.c16 import charstring_positions
+        from rules.c16 import charstring_positions, run_length_table
         charstring_positions(ctx)
+        run_length_table(ctx)
     adt = ctx.facts.adts.get('unicode::CharString')
     tys = [fl['ty'] for v in (adt['variants'] if adt else ()) for fl in v['fields'] if fl['name'] == 'rle_cluster_lengths']
     ctx.require(bool(tys) and '(usize, usize)' in tys[0], b, 'length-width', 'cluster lengths are stored as usize', 'cluster lengths are stored as %s' % tys)
